@@ -46,6 +46,16 @@ func runC01(c *Ctx) {
 			}
 		}
 		ruleDelegateErr(c, "DELEGATE-ERR", dp)
+		{
+			var tp []*packages.Package
+			for _, rel := range []string{"private/bufpkg/bufmodule", "private/buf/bufworkspace", "private/buf/buftarget", "private/bufpkg/bufimage"} {
+				if q := c.P.Pkg(rel); q != nil {
+					tp = append(tp, q)
+				}
+			}
+			ruleTargetPathsByComponent(c, "PATHS-BY-COMPONENT", tp)
+			ruleWithFlagNoop(c, "WITH-FLAG-NOOP", tp, 1)
+		}
 		if q := c.P.Pkg("private/bufpkg/bufmodule"); q != nil {
 			c01RetargetIndependent(c, q)
 		}
